@@ -93,8 +93,8 @@ ASSUMPTIONS = [
     "an entirely empty archive has no objective range: it is plotted only with explicit limits (with default limits "
     "the 2-D functions raise ValueError from np.min of an empty array — recorded as an observation, outside the "
     "property's quantifier 'empty cells, one elite, full')",
-    "1-D CVT heat-maps are generated with >= 2 centroids (see notes: a single centroid makes `centroids.squeeze()` "
-    "0-dimensional and the call raises IndexError — same family as D22, reported separately)",
+    "1-D CVT heat-maps include the single-centroid archive (defect D25: `centroids.squeeze()` became 0-dimensional "
+    "and the call raised IndexError; fixed in /repo, corpus/C20/D25.json)",
     "dyadic inputs make every float operation of the plot code exact (midpoints of centroids, parallel-axes "
     "normalisation with power-of-two axis widths), so artists are compared as exact rationals",
 ]
@@ -567,7 +567,7 @@ def run_grid(case):
 
 
 def gen_cvt1(rng, pattern=None):
-    n = rng.choice([2, 2, 3, 4, 5, 8, 13, 21, 30]) if rng.random() < 0.7 else rng.randint(2, 30)
+    n = rng.choice([1, 2, 2, 3, 4, 5, 8, 13, 21, 30]) if rng.random() < 0.7 else rng.randint(1, 30)
     lo = dy(rng, -8, 0, 4)
     width = rng.choice([1, 2, 4, 8])
     den = 64
